@@ -46,6 +46,28 @@ def oracle(ops, resp):
                 return "step %d: response does not carry the correlation id" % step
             if cs[o["i"]] != caller:
                 return "step %d: sending changed the caller's context" % step
+        elif o["k"] == 12:
+            if d.get("err"):
+                return "step %d: call through the processor failed: %s" % (step, d["err"])
+            want_reply = "exception:100" if o.get("_over") else "ok"
+            if d.get("reply") != want_reply:
+                return "step %d: reply is %r, expected %r" % (step, d.get("reply"), want_reply)
+            caller_before, caller_after, srv = prev[o["i"]], cs[o["i"]], cs[-1]
+            want = {k: v for k, v in caller_before["req"] if bytes.fromhex(k) != b"_opid"}
+            got = {k: v for k, v in srv["req"] if bytes.fromhex(k) != b"_opid"}
+            if want != got:
+                return "step %d: handler does not see exactly the caller's request headers" % step
+            for k, v in o["hadd"]:
+                if bytes.fromhex(k) == b"_opid":
+                    continue
+                last = [vv for kk, vv in o["hadd"] if kk == k][-1]
+                if hdr(caller_after["resp"], bytes.fromhex(k)) != bytes.fromhex(last):
+                    return ("step %d: response header %s set by the handler is not visible to the caller (reply: %s)"
+                            % (step, k, d.get("reply")))
+            cid = hdr(caller_before["req"], b"_cid")
+            handler_set_cid = any(bytes.fromhex(k) == b"_cid" for k, _ in o["hadd"])
+            if cid and not handler_set_cid and hdr(caller_after["resp"], b"_cid") != cid:
+                return "step %d: the reply (%s) does not carry the correlation id" % (step, d.get("reply"))
         elif o["k"] == 11:
             if d.get("err"):
                 return "step %d: reply rejected: %s" % (step, d["err"])
@@ -70,6 +92,8 @@ def run(ctx, br):
     quick = ctx.tier == "quick"
     n = 400 if quick else 8000
     seqs = [cc.gen_call(rng, reserved_p=(0.0 if i % 3 else 0.15)) for i in range(n)]
+    # calls through a real FBaseProcessor with a bounded output buffer (normal replies and RESPONSE_TOO_LARGE error replies)
+    seqs += [cc.gen_processor_call(rng) for _ in range(n // 3)]
     # a few requests whose op id was removed by the caller (must be rejected) are produced by reserved writes
     resps = cc.run_ctx([{"ops": s} for s in seqs])
     bad = 0
